@@ -33,7 +33,13 @@ type rtStringer interface{ RTString() string }
 type RC struct {
 	S0, S1, S2 int
 	I          rtStringer
+	// N mirrors the slots inside a pointer-to-struct section with a non-nil default: overlay merges
+	// such a section in place, so it is where a version that shares memory with another one shows
+	N *RCN
 }
+
+// RCN: every source writes its value v to S<i> and to N.M<i>
+type RCN struct{ M0, M1, M2 int }
 
 type rtNotStringer struct{ X int }
 
@@ -143,6 +149,12 @@ func (s *rtSource) valueFor(t *dials.Type, v int) reflect.Value {
 	out := reflect.New(t.Type())
 	vv := v
 	out.Elem().Field(s.idx).Set(reflect.ValueOf(&vv))
+	if nf := out.Elem().Field(4); nf.Kind() == reflect.Ptr { // the mirrored section
+		sec := reflect.New(nf.Type().Elem())
+		mv := v
+		sec.Elem().Field(s.idx).Set(reflect.ValueOf(&mv))
+		nf.Set(sec)
+	}
 	return out
 }
 
@@ -222,6 +234,7 @@ type rtDelivery struct {
 }
 
 type rtRun struct {
+	mirrorBad                 []string // configs whose nested section disagrees with their slots
 	c                         *Ctx
 	nsrc                      int
 	params                    dials.Params[RC]
@@ -328,6 +341,10 @@ func (r *rtRun) logf(f string, a ...any) {
 func (r *rtRun) cfgStr(c *RC) string {
 	if c == nil {
 		return "-"
+	}
+	if c.N == nil || c.N.M0 != c.S0 || c.N.M1 != c.S1 || c.N.M2 != c.S2 {
+		// no stack of source values produces this: each source writes the same value to both places
+		r.mirrorBad = append(r.mirrorBad, fmt.Sprintf("step %d: slots %d.%d.%d but nested section %+v", r.stepNo, c.S0, c.S1, c.S2, c.N))
 	}
 	s := c.slots(r.nsrc)
 	p := make([]string, len(s))
